@@ -32,7 +32,11 @@ func VP_C14_step() {
 		vpExpectChunk(r, c, "before")
 	}
 	// the operation: write a live or a fresh coordinate
-	ti := vp.Choice(vpLiveCoords() + 1) // a live coordinate or a fresh one
+	nc := vpLiveCoords() + 1 // a live coordinate or a fresh one
+	if nc > len(vpCoords) {
+		nc = len(vpCoords)
+	}
+	ti := vp.Choice(nc)
 	x, z := vpCoords[ti][0], vpCoords[ti][1]
 	lens := vpC14Lens()
 	n := lens[vp.Choice(len(lens))]
@@ -109,7 +113,12 @@ func VP_C14_toolarge() {
 	n := []int{1, 4093}[vp.Choice(2)]
 	data := make([]byte, n)
 	data[0], data[n-1] = 0x5a, 0x5a
-	vp.Assert(r.WriteSector(vpCoords[3][0], vpCoords[3][1], data) == nil, "a later write succeeds")
+	// (at a coordinate other than the existing chunk's)
+	li := 3
+	if chunks[0].x == vpCoords[li][0] && chunks[0].z == vpCoords[li][1] {
+		li = 4
+	}
+	vp.Assert(r.WriteSector(vpCoords[li][0], vpCoords[li][1], data) == nil, "a later write succeeds")
 	vpExpectChunk(r, chunks[0], "existing chunk after a later write")
 	vpValidAnvil(mem.b)
 	vp.Cover("end")
